@@ -47,7 +47,7 @@ def impl_msg(case):
         m = mido.Message(t, time=time, **d)
         s = str(m)
         back = mido.Message.from_str(s)
-        if back != m or type(back.time) is not type(m.time):
+        if back != m or type(back.time) is not (int if type(m.time) is bool else type(m.time)):
             fail = f'from_str(str(m)) = {back!r} differs from {m!r} (text {s!r})'
         elif mido.Message.from_dict(m.dict()) != m:
             fail = f'from_dict(m.dict()) differs from {m!r}'
@@ -173,7 +173,16 @@ def gen(ck):
         mcases.append((t, {}, 0))
     for _ in range(n):
         t, d = msgs.random_message(rng, max_sysex=rng.choice([0, 1, 2, 50]))
-        mcases.append((t, d, rng.choice(ORACLE_TIMES)))
+        time = rng.choice(ORACLE_TIMES)
+        if rng.random() < 0.08:
+            # booleans are integers (numbers.Integral): a message holding True/False is a valid message like any other
+            d = {k: (tuple(bool(b) if b in (0, 1) else b for b in v) if k == 'data' else (bool(v) if v in (0, 1) and type(v) is int else v))
+                 for k, v in d.items()}
+            if type(time) is int and time in (0, 1):
+                time = bool(time)
+        mcases.append((t, d, time))
+    mcases.append(('sysex', {'data': (True, 2, False)}, 0))
+    mcases.append(('note_on', {'note': True, 'velocity': False}, True))
     texts = list(BAD_LINES)
     for _ in range(n):
         t, d = msgs.random_message(rng, max_sysex=4)
